@@ -10,6 +10,8 @@ ALLQ = ('isna', 'bounds', 'total_bounds', 'intersects_bounds', 'length', 'area')
 
 
 def run(check, pool, Task):
+    from . import validate
+    validate.apply(check, ['box_kernels', 'bounds_kernels', 'measures', 'point_kernels'])
     thorough = check.tier == 'thorough'
     small = [d for d in W.DERIVS if not d.startswith('big:')]
     derivs = small if thorough else W.QUICK_DERIVS + ['slice[1:][1:]', 'mask', 'step[::2]', 'take[-2,-1]', 'take[-1,0,1]', 'getitem[[-2,-1]]', 'slice[::-2]', 'iter']
